@@ -27,6 +27,13 @@ class Model:
         self.tables = {}
         self.qtables = {}
 
+    @classmethod
+    def from_scm(cls, scm):
+        """Observational regime backed by an SCM's joint; other regimes stay independent random tables."""
+        m = cls(scm.order, 0)
+        m.tables[(None, ())] = dict(scm.joint())
+        return m
+
     def table(self, regime):
         if regime not in self.tables:
             r = random.Random(repr((self.rng.random(), regime)))
